@@ -135,7 +135,7 @@ def drive_random(cs, scn, rec, seed, nsteps, modes, genstep_frac=0.3, reset_frac
             # than 1e-5 to a probability of the scenario would be dropped: none in 10^5 steps is the expectation)
             u = None
         counter += 1
-        vec = encode_param(cs, k)
+        vec = encode_param(cs, k, wrap=(rng.random() < 0.3))
 
         def spec_for_env(jj, c):
             if modes[jj][1]:
@@ -185,14 +185,19 @@ def drive_random(cs, scn, rec, seed, nsteps, modes, genstep_frac=0.3, reset_frac
     return dict(steps=nsteps)
 
 
-def encode_param(cs, k):
-    """input selection: a parameter vector for flat action k (None if the format cannot say it)"""
+def encode_param(cs, k, wrap=False):
+    """input selection: a parameter vector for flat action k; with wrap the host parameter is given as
+    host + subnet size when the space allows it (the documented wrapping modulo the subnet size)"""
     a = pyref.flat_action(cs, k)
     ty = {"exploit": 0, "privesc": 1, "service_scan": 2, "os_scan": 3, "subnet_scan": 4, "process_scan": 5}[a["kind"]]
     os_i = 0 if a["os"] == "<none>" else cs["os"].index(a["os"]) + 1
     srv_i = 0 if a["srv"] == "<none>" else cs["services"].index(a["srv"])
     proc_i = 0 if a["proc"] == "<none>" else cs["processes"].index(a["proc"])
-    return [ty, a["target"][0] - 1, a["target"][1], os_i, srv_i, proc_i]
+    h = a["target"][1]
+    size = cs["subnets"][a["target"][0]]
+    if wrap and h + size < max(cs["subnets"]):
+        h = h + size
+    return [ty, a["target"][0] - 1, h, os_i, srv_i, proc_i]
 
 
 def run_job(job):
